@@ -52,10 +52,13 @@ def gen_group(rng, nq):
                             ("cmp", rng.choice(["CLt", "CGe"]), col(0), col(wl)) if keys[0] == rkeys[0] or {keys[0], rkeys[0]} <= {"i32", "i64"} else ("isnull", col(wl - 1))])
             conj = ("and", conj, r); kind += "+residual"
         q = ("join", jt, tbl(0, a), tbl(1, b), conj if jt != "JCross" else lit(True))
-        if rng.random() < 0.2 and jt != "JCross":
+        if rng.random() < 0.3 and jt != "JCross":
             # three-way: (a JOIN b) JOIN c on first key
             w2 = wl + len(rt)
-            q = ("join", rng.choice(["JInner", "JLeft"]), q, tbl(2, c), ("cmp", "CEq", col(0), col(w2)))
+            # the second join's key comes from either input of the first join: a column gathered from the first join's BUILD
+            # side is dictionary-encoded when it is a string (found by C01's thorough tier, fixed by 6c384c3)
+            kcol = col(0) if rng.random() < 0.5 else col(wl)
+            q = ("join", rng.choice(["JInner", "JLeft", "JLeft", "JRight", "JFull"]), q, tbl(2, c), ("cmp", "CEq", kcol, col(w2)))
             kind += "+3way"
         if rng.random() < 0.25:
             q = ("filter", q, relgen.gen_pred(rng, lt, 0)); kind += "+where"
